@@ -1,0 +1,110 @@
+//go:build verif && (verif_all || verif_c01 || verif_c06 || verif_c07 || verif_c13 || verif_c14 || verif_c15 || verif_c16 || verif_c17)
+// +build verif
+// +build verif_all verif_c01 verif_c06 verif_c07 verif_c13 verif_c14 verif_c15 verif_c16 verif_c17
+
+package gocql
+
+// Verification hooks (build tag `verif`): session-level wrappers used by the in-memory
+// cluster harnesses. Add-only.
+
+import (
+	"errors"
+	"net"
+	"time"
+)
+
+// VerifDisableControlConn sets the internal testing switch that makes a Session use only
+// the configured hosts (no control connection, no system table queries).
+func VerifDisableControlConn(cfg *ClusterConfig) { cfg.disableControlConn = true }
+
+// VerifSessionConns returns every live connection of every host pool of the session.
+func VerifSessionConns(s *Session) []*Conn {
+	var out []*Conn
+	s.pool.mu.RLock()
+	pools := make([]*hostConnPool, 0, len(s.pool.hostConnPools))
+	for _, p := range s.pool.hostConnPools {
+		pools = append(pools, p)
+	}
+	s.pool.mu.RUnlock()
+	for _, p := range pools {
+		p.mu.RLock()
+		out = append(out, p.conns...)
+		p.mu.RUnlock()
+	}
+	return out
+}
+
+// VerifPoolState reports (conns, size, closed, filling) per host pool keyed by connect address.
+func VerifPoolState(s *Session) map[string][4]int {
+	out := map[string][4]int{}
+	s.pool.mu.RLock()
+	pools := make([]*hostConnPool, 0, len(s.pool.hostConnPools))
+	for _, p := range s.pool.hostConnPools {
+		pools = append(pools, p)
+	}
+	s.pool.mu.RUnlock()
+	b := func(x bool) int {
+		if x {
+			return 1
+		}
+		return 0
+	}
+	for _, p := range pools {
+		p.mu.RLock()
+		out[p.host.ConnectAddress().String()] = [4]int{len(p.conns), p.size, b(p.closed), b(p.filling)}
+		p.mu.RUnlock()
+	}
+	return out
+}
+
+// VerifConnProto returns the protocol version of a connection and its stream capacity.
+func VerifConnProto(c *Conn) (int, int) { return int(c.version), c.streams.NumStreams }
+
+type verifCutWriter struct {
+	limit int64 // bytes accepted before failing; <0: never fail
+	n     int64
+	err   error
+}
+
+func (w *verifCutWriter) SetWriteDeadline(time.Time) error { return nil }
+func (w *verifCutWriter) Write(p []byte) (int, error) {
+	if w.limit < 0 || w.n+int64(len(p)) <= w.limit {
+		w.n += int64(len(p))
+		return len(p), nil
+	}
+	k := int(w.limit - w.n)
+	if k < 0 {
+		k = 0
+	}
+	w.n += int64(k)
+	return k, w.err
+}
+
+var _ net.Error = nil
+
+// VerifFlushAttribution runs writeCoalescer.flush on buffers of the given lengths over a writer that
+// accepts `limit` bytes and then fails; it returns per buffer the reported n and whether err == nil.
+func VerifFlushAttribution(lens []int, limit int64) (ns []int, ok []bool) {
+	werr := errors.New("verif: cut")
+	wc := &writeCoalescer{c: &verifCutWriter{limit: limit, err: werr}}
+	bufs := make(net.Buffers, len(lens))
+	chans := make([]chan writeResult, len(lens))
+	rc := make([]chan<- writeResult, len(lens))
+	for i, l := range lens {
+		bufs[i] = make([]byte, l)
+		chans[i] = make(chan writeResult, 1)
+		rc[i] = chans[i]
+	}
+	wc.flush(rc, bufs)
+	for i := range lens {
+		select {
+		case r := <-chans[i]:
+			ns = append(ns, r.n)
+			ok = append(ok, r.err == nil)
+		default:
+			ns = append(ns, -1)
+			ok = append(ok, false)
+		}
+	}
+	return
+}
